@@ -54,16 +54,18 @@ TRUSTED = [
     'as exact rationals; grades compared within 1e-12, messages / all_awarded / errors exactly whenever every number that reaches '
     'the solver is a small dyadic rational (exact stream), otherwise grades and errors only, with decision boundaries guard-banded',
     'translator translate/singlelist.py (Python ast -> Gallina) for the straight-line helpers of listgrader.py',
-    'the assignment solver inside the theorems: hypothesis munkres_partial_correct_statement (Proofs/MunkresSpec.v) -- discharged for '
-    'integer costs by C06\'s munkres_partial_correct; the model calls the integer solver on costs scaled by a common denominator, '
-    'and that the implementation\'s float run on 1 - grade makes the same decisions (scale invariance) is validated by the '
-    'correspondence, not proved',
+    'the assignment solver: NOT assumed -- the model calls Munkres.computeZ (C06\'s model) on the costs D*(1-grade) scaled to integers by a '
+    'common denominator D, and its optimality is C06\'s theorem munkres_partial_correct (Proofs/MunkresCorrect.v), carried over to '
+    'rational costs by a proved scaling argument (solveZ_optimal); that the implementation\'s FLOAT run on 1 - grade makes the same '
+    'decisions as this integer run (scale invariance of the algorithm, exactness of float arithmetic on small dyadic costs) is validated '
+    'by the correspondence on the implementation\'s own runs, not proved',
     'modelled, not verified: Python str.split / str.strip (split proved to invert join; the whitespace table is compared with '
     'Python over every code point on each run), list/dict mechanics, IEEE rounding of sum()/n and of the credit product',
 ]
 ASSUMPTIONS = ['the subgrader\'s check is a function of (answer, item) returning a grade in [0,1] or raising: an arbitrary oracle in every theorem',
                'answer credits lie in [0,1] (schema); the delimiter is non-empty',
-               'the solver returns (statements are of the form "if the model returns ..."): termination of Munkres is C06\'s',
+               'statements are of the form "if the model returns a grade"; that it does is proved (C07_returns) while n * D < sys.maxsize, '
+               'n the longer list, D a common denominator of the credits (termination of Munkres is C06\'s munkres_terminates)',
                'debug=False and no attempt-based credit on the observed graders (both act after check)']
 
 HEADER = ('From Coq Require Import ZArith QArith List Bool.\n'
@@ -959,6 +961,39 @@ def run_spec(spec, rng, res, stats, terms, perm_budget, emit=True):
             stats['top_skipped_rounded_nested'] += 1
 
 
+def exhaustive_small(res, stats):
+    """thorough tier: every credit matrix over {0, 1/2, 1} for up to 2x3 / 3x2 items and over {0, 1} for 3x3, ordered and
+    unordered, partial_credit on and off; judged by the property oracle (no Coq terms: volume)"""
+    names, items = ['A', 'B', 'C'], ['x', 'y', 'z']
+    plain = {n: [{'expect': n, 'credit': 1, 'msg': ''}] for n in names}
+    for ne in (1, 2, 3):
+        for ns in (1, 2, 3):
+            palette = [0, 0.5, 1] if ne * ns <= 6 else [0, 1]
+            for cells in itertools.product(palette, repeat=ne * ns):
+                table = {}
+                for i in range(ns):
+                    for j in range(ne):
+                        if cells[i * ne + j]:
+                            table['%s|%s' % (names[j], items[i])] = [cells[i * ne + j], '']
+                for ordered in (False, True):
+                    for partial in (True, False):
+                        spec = {'nested': False, 'inner_cfg': None, 'form': 'explicit', 'leaves': plain, 'table': table, 'single': False,
+                                'stream': 'exact', 'inputs': [','.join(items[:ns])],
+                                'cfg': {'delimiter': ',', 'ordered': ordered, 'length_error': False, 'missing_error': True,
+                                        'partial_credit': partial, 'wrong_msg': ''},
+                                'answers': [{'lists': [names[:ne]], 'credit': 1, 'msg': 'ANS0'}]}
+                        st, built = core.guarded(build, spec)
+                        if st != 'ret':
+                            res.witnesses.append(witness(spec, None, 'the grader cannot be built: %r' % (built,), 'construct'))
+                            continue
+                        st, out = core.guarded(built[0], None, spec['inputs'][0])
+                        res.oracle_evals += 1
+                        stats['exhaustive_small'] += 1
+                        bad = judge(spec, spec['inputs'][0], st, out)
+                        if bad:
+                            res.witnesses.append(witness(spec, spec['inputs'][0], bad, 'formula'))
+
+
 def split_terms(rng, n):
     out = []
     alphabet = 'ab-, x'
@@ -1005,7 +1040,7 @@ def run(ctx):
                 'string-form | inferred from expect], credit table, submission of 1-7 items); non-trivial = distinct '
                 '(configuration, answers, table, submission) on which a grade was returned')
     stats = new_stats()
-    plan = [('flat', 'exact', 110), ('flat', 'rounded', 30), ('nested', 'exact', 36), ('nested', 'rounded', 12)]
+    plan = [('flat', 'exact', 90), ('flat', 'rounded', 24), ('nested', 'exact', 30), ('nested', 'rounded', 10)]
     perm_budget = 5
     if ctx['escalate'] and not thorough:
         plan = [(k, s, int(n * 1.4)) for k, s, n in plan]
@@ -1021,6 +1056,8 @@ def run(ctx):
         stats['specs_%s_%s' % ('nested' if spec['nested'] else 'flat', spec.get('stream', 'exact'))] += 1
         stats['form_' + spec['form']] += 1
         run_spec(spec, rng, res, stats, terms, perm_budget if not is_corpus else 23)
+    if thorough:
+        exhaustive_small(res, stats)
     # identical terms (the same inner check on the same item, repeated across alternatives) are evaluated once
     seen, uniq = set(), []
     for t, sp, inp in terms:
@@ -1097,17 +1134,17 @@ def replay(w):
 
 LEVEL_TEXT = ('Theorems for an arbitrary subgrader (item credits are an oracle), expected lists and submissions of ANY length and any '
               'non-empty delimiter: the grade is the answer\'s credit times max(0, (best - surplus)/n_expect) with best the positional '
-              'sum (ordered) or the maximum total over ALL one-to-one assignments of items to answers (unordered; from the solver\'s '
-              'correctness statement for integer costs, no transfer to rationals left unproved), missing items counting zero; '
+              'sum (ordered) or the maximum total over ALL one-to-one assignments of items to answers (unordered; the solver hypothesis is '
+              'discharged by C06\'s theorem for the model\'s integer-scaled solver), missing items counting zero; '
               'partial_credit=False zeroes anything short of full credit; the answer-level message appears exactly when every padded '
               'pair earned credit (recursively for one level of nesting), which forces equal counts; the unordered grade is invariant '
               'under every permutation of the submitted items; length and blank-item errors are raised exactly when enabled and '
               'applicable, length first; across alternative lists the best-scoring one is reported. split is proved to invert join. '
               'The model is tied to listgrader.py by a regenerating translator for the straight-line helpers and by trace-level '
               'differential correspondence for the rest.')
-LEVEL_NOTE = ('Exact rational arithmetic; statements are of the form "if the model returns" (solver termination is C06\'s); the solver '
-              'hypothesis is C06\'s munkres_partial_correct_statement; float effects (sum/n, credit product) are compared within 1e-12 and '
-              'guard-banded at decision boundaries; trusted: Coq kernel, translate/singlelist.py, harness/props/c07.py.')
+LEVEL_NOTE = ('Exact rational arithmetic; statements are of the form "if the model returns a grade", and it does while n*D < sys.maxsize '
+              '(proved); no axioms, no solver assumption; the float run of the implementation is tied to the exact model by correspondence '
+              '(grades within 1e-12, decision boundaries guard-banded); trusted: Coq kernel, translate/singlelist.py, harness/props/c07.py.')
 TECHNIQUE = ('Coq proof (lists, NoDup/Permutation, Q arithmetic; matching-extension and scaling arguments on top of the Munkres '
              'statement) + source-to-Gallina translator + vm_compute trace correspondence')
 DESIGN_REF = 'DESIGN.md section 3, C07'
